@@ -351,4 +351,303 @@ theorem C08_no_lookahead_map_pipe (ρ : Env) (sid : Nat) (f : FnSym) (p : TPipe)
 example : ((iterT menuEnv (.map 5 (.add 1) (.filter 4 (.keepMod 2 0) (.src [.int 1, .int 2, .int 3, .int 4])))).logAfter 1)
     = [⟨4, .int 1⟩, ⟨4, .int 2⟩, ⟨5, .int 2⟩] := rfl
 
+/-! ## 9. More lazy combinators: `reshuffle`, `cache`, `catch`, `tile`, `intersperse` -/
+
+/-! ### 9.1 `reshuffle`: the index-driven walk along the drawn permutation -/
+
+/-- iterating a `ReShuffleDataset` whose generator drew `perm` is iterating `input[perm]` -/
+theorem C08_reshuffle_is_slice (ρ : Env) (perm : List Nat) (p : TPipe) :
+    iterT ρ (.reshuffle perm p) = iterT ρ (.slice perm p) := by
+  rw [iterT, iterT]
+
+theorem C08_erase_reshuffle (ρ : Env) (perm : List Nat) (p : TPipe) :
+    (iterT ρ (.reshuffle perm p)).erase = (iterT ρ (.slice perm p)).erase := by
+  rw [C08_reshuffle_is_slice]
+
+/-- hence each chunk is the complete `ds[j]` outcome of the drawn position, in drawing order -/
+theorem C08_reshuffle_iter_full (ρ : Env) (perm : List Nat) (p : TPipe) :
+    (iterT ρ (.reshuffle perm p)).chunks.map (fun c => (c.1, (Except.ok c.2 : Res Val))) =
+      (perm.take (iterT ρ (.reshuffle perm p)).chunks.length).map (getT ρ p) := by
+  rw [iterT]
+  exact slice_iter_full ρ p perm
+
+/-- `ReShuffleDataset` refuses integer indexing, without calling anything -/
+theorem C08_getitem_reshuffle (ρ : Env) (perm : List Nat) (p : TPipe) (i : Nat) :
+    getT ρ (.reshuffle perm p) i = ([], .error .typeError) := by
+  rw [getT]
+
+example : (iterT menuEnv (.reshuffle [2, 0, 1] (.map 1 (.add 1) (.src [.int 1, .int 2, .int 3])))).chunks
+    = [([⟨1, .int 3⟩], .int 4), ([⟨1, .int 1⟩], .int 2), ([⟨1, .int 2⟩], .int 3)] := by
+  simp [iterT, sliceT, getT, menuEnv, menuFn]
+
+/-! ### 9.2 `cache` (first pass over an empty cache) -/
+
+/-- the first iteration over a fresh cache is the index-driven walk over `0 … n-1`, and `ds[i]` fetches `input[i]` -/
+theorem C08_cache_is_range_slice (ρ : Env) (p : TPipe) (n : Nat) (h : lenT p = some n) :
+    iterT ρ (.cache p) = iterT ρ (.slice (List.range n) p) ∧ ∀ i, getT ρ (.cache p) i = getT ρ p i := by
+  constructor
+  · rw [iterT, iterT, h]
+  · intro i; rw [getT]
+
+theorem C08_getitem_cache (ρ : Env) (p : TPipe) (i : Nat) : getT ρ (.cache p) i = getT ρ p i := by
+  rw [getT]
+
+/-- a dataset without `len` cannot be walked by index -/
+theorem C08_cache_no_len (ρ : Env) (p : TPipe) (h : lenT p = none) :
+    iterT ρ (.cache p) = ⟨[], [], some .typeError⟩ := by
+  rw [iterT, h]
+
+example : iterT menuEnv (.cache (.map 1 (.add 1) (.src [.int 1, .int 2])))
+    = ⟨[([⟨1, .int 1⟩], .int 2), ([⟨1, .int 2⟩], .int 3)], [], none⟩ := by
+  simp [iterT, lenT, List.range, List.range.loop, sliceT, getT, menuEnv, menuFn]
+
+/-! ### 9.3 `catch`: index driven, skips the positions whose exception matches -/
+
+/-- the walk over ANY list of positions, `m = catchStop ρ E p sel` = the number of positions before the first
+    failure that `except E` does not catch: the results are the successes among the first `m` positions; exactly
+    the positions `sel[0] … sel[m]` have been evaluated, each once, in order; the stream ends with the exception of
+    `sel[m]` (or normally when there is no such position) -/
+theorem C08_catch_walk (ρ : Env) (E : List Err) (p : TPipe) (sel : List Nat) (pending : Log) :
+    (catchT ρ E p sel pending).chunks.map (·.2) = (sel.take (catchStop ρ E p sel)).filterMap (okVal ρ p) ∧
+    (catchT ρ E p sel pending).fullLog =
+      pending ++ ((sel.take (catchStop ρ E p sel + 1)).map (fun j => (getT ρ p j).1)).flatten ∧
+    (catchT ρ E p sel pending).err = (sel[catchStop ρ E p sel]?).bind (errOf ρ p) :=
+  catch_walk ρ E p sel pending
+
+/-- `catch` over a dataset of length `n`, with `m` = the first position whose exception does not match `E`
+    (`m = n` if there is none; `uncaught ρ E p j` says that `ds[j]` raises an exception not matched by `E`):
+    the values are exactly the successful `ds[j]`, `j < m`, in order; `fullLog` is the concatenation of the `ds[j]`
+    footprints of exactly the positions `0 … m` (`0 … n-1` if `m = n`): nothing beyond the failing position is
+    evaluated and every position's calls appear once; the stream ends with the exception of position `m` -/
+theorem C08_catch_chunks (ρ : Env) (E : List Err) (p : TPipe) (n : Nat) (h : lenT p = some n) :
+    catchStop ρ E p (List.range n) ≤ n ∧
+    (∀ j, j < catchStop ρ E p (List.range n) → uncaught ρ E p j = false) ∧
+    (catchStop ρ E p (List.range n) < n → uncaught ρ E p (catchStop ρ E p (List.range n)) = true) ∧
+    (iterT ρ (.catch E p)).chunks.map (·.2) = (List.range (catchStop ρ E p (List.range n))).filterMap (okVal ρ p) ∧
+    (iterT ρ (.catch E p)).fullLog =
+      ((List.range (min (catchStop ρ E p (List.range n) + 1) n)).map (fun j => (getT ρ p j).1)).flatten ∧
+    (iterT ρ (.catch E p)).err =
+      if catchStop ρ E p (List.range n) < n then errOf ρ p (catchStop ρ E p (List.range n)) else none := by
+  have ht : iterT ρ (.catch E p) = catchT ρ E p (List.range n) [] := by rw [iterT, h]
+  have hle : catchStop ρ E p (List.range n) ≤ n := by simpa using catchStop_le ρ E p (List.range n)
+  obtain ⟨h1, h2, h3⟩ := catch_walk ρ E p (List.range n) []
+  have hb := catchStop_before ρ E p (List.range n)
+  rw [List.take_range, Nat.min_eq_left hle] at hb h1
+  refine ⟨hle, fun j hj => hb j (List.mem_range.2 hj), fun hlt => ?_, ?_, ?_, ?_⟩
+  · exact catchStop_at ρ E p (List.range n) _ (List.getElem?_range hlt)
+  · rw [ht, h1]
+  · rw [ht, h2, List.take_range, List.nil_append]
+  · rw [ht, h3]
+    split
+    · next hlt => rw [List.getElem?_range hlt]; rfl
+    · next hlt => rw [List.getElem?_eq_none (by simpa using hlt)]; rfl
+
+/-- no look-ahead, for ANY list of positions: when the consumer holds `k` results the walk has evaluated a prefix
+    `sel.take m` of the positions; the successes among them are exactly the results handed out; and the prefix
+    ends with a success, the position of the last result -/
+theorem C08_catch_no_lookahead_sel (ρ : Env) (E : List Err) (p : TPipe) (sel : List Nat) (k : Nat) :
+    ∃ m, m ≤ sel.length ∧
+      (catchT ρ E p sel []).logAfter k = ((sel.take m).map (fun j => (getT ρ p j).1)).flatten ∧
+      (sel.take m).filterMap (okVal ρ p) = ((catchT ρ E p sel []).chunks.take k).map (·.2) ∧
+      (m = 0 ∨ ∃ j, sel[m - 1]? = some j ∧ (okVal ρ p j).isSome = true) := by
+  obtain ⟨m, hm, h1, h2, h3⟩ := catch_no_lookahead_gen ρ E p sel [] k
+  exact ⟨m, hm, by simpa using h1, h2, h3⟩
+
+/-- no look-ahead for `catch` over a dataset of length `n`: when the consumer holds `k` results, exactly the
+    positions `0 … m-1` have been evaluated (the log is the concatenation of their `ds[j]` footprints, each once),
+    their successes are the results handed out, and position `m-1` is itself a success — the last result.
+    So catching never evaluates a position beyond the one it yields. -/
+theorem C08_catch_no_lookahead (ρ : Env) (E : List Err) (p : TPipe) (n : Nat) (h : lenT p = some n) (k : Nat) :
+    ∃ m, m ≤ n ∧
+      (iterT ρ (.catch E p)).logAfter k = ((List.range m).map (fun j => (getT ρ p j).1)).flatten ∧
+      (List.range m).filterMap (okVal ρ p) = ((iterT ρ (.catch E p)).chunks.take k).map (·.2) ∧
+      (m = 0 ∨ (okVal ρ p (m - 1)).isSome = true) := by
+  have ht : iterT ρ (.catch E p) = catchT ρ E p (List.range n) [] := by rw [iterT, h]
+  obtain ⟨m, hm, h1, h2, h3⟩ := C08_catch_no_lookahead_sel ρ E p (List.range n) k
+  simp only [List.length_range] at hm
+  rw [List.take_range, Nat.min_eq_left hm] at h1 h2
+  refine ⟨m, hm, by rw [ht, h1], by rw [ht, h2], ?_⟩
+  rcases h3 with h3 | ⟨j, hj, hs⟩
+  · exact Or.inl h3
+  · by_cases h0 : m = 0
+    · exact Or.inl h0
+    · rw [List.getElem?_range (by omega)] at hj
+      injection hj with hj
+      exact Or.inr (hj ▸ hs)
+
+/-- the same in the form "a prefix of the footprints up to and including the `k`-th success": if position `i` is
+    the `k`-th success (`k ≥ 1`), then after `k` results nothing but (a prefix of) the positions `0 … i` has run -/
+theorem C08_catch_no_lookahead_prefix (ρ : Env) (E : List Err) (p : TPipe) (n : Nat) (h : lenT p = some n)
+    (k i : Nat) (hs : (okVal ρ p i).isSome = true) (hk : ((List.range i).filterMap (okVal ρ p)).length + 1 = k) :
+    (iterT ρ (.catch E p)).logAfter k <+: ((List.range (i + 1)).map (fun j => (getT ρ p j).1)).flatten := by
+  obtain ⟨m, _, h1, h2, h3⟩ := C08_catch_no_lookahead ρ E p n h k
+  have hcnt : ((List.range m).filterMap (okVal ρ p)).length ≤ k := by
+    rw [h2]; simp only [List.length_map, List.length_take]; omega
+  have hm : m ≤ i + 1 := by
+    apply Classical.byContradiction
+    intro hgt
+    have hm0 : m ≠ 0 := by omega
+    rcases h3 with h3 | h3
+    · exact hm0 h3
+    · obtain ⟨v, hv⟩ := Option.isSome_iff_exists.1 h3
+      obtain ⟨w, hw⟩ := Option.isSome_iff_exists.1 hs
+      have e1 : m = (m - 1) + 1 := by omega
+      have hsub : List.Sublist (List.range (i + 1)) (List.range (m - 1)) := List.range_sublist.2 (by omega)
+      have := (hsub.filterMap (okVal ρ p)).length_le
+      rw [e1, List.range_succ, List.filterMap_append] at hcnt
+      rw [List.range_succ, List.filterMap_append] at this
+      simp [hv, hw] at hcnt this
+      omega
+  rw [h1]
+  obtain ⟨r, hr⟩ : List.range m <+: List.range (i + 1) := by
+    rw [List.prefix_iff_eq_take]
+    simp [List.take_range, Nat.min_eq_left hm]
+  rw [← hr]
+  simp
+
+example : iterT menuEnv (.catch [.userA] (.map 1 (.raiseIfMod 2 0 .userA) (.src [.int 1, .int 2, .int 3, .int 4])))
+    = ⟨[([⟨1, .int 1⟩], .int 1), ([⟨1, .int 2⟩, ⟨1, .int 3⟩], .int 3)], [⟨1, .int 4⟩], none⟩ := by
+  simp [iterT, lenT, List.range, List.range.loop, catchT, getT, menuEnv, menuFn, Err.isAny, Err.isA]
+
+/-- an exception that does not match ends the stream; position 3 is never evaluated -/
+example : iterT menuEnv (.catch [.userC] (.map 1 (.raiseIfMod 3 0 .userA) (.src [.int 1, .int 2, .int 3, .int 4])))
+    = ⟨[([⟨1, .int 1⟩], .int 1), ([⟨1, .int 2⟩], .int 2)], [⟨1, .int 3⟩], some .userA⟩ := by
+  simp [iterT, lenT, List.range, List.range.loop, catchT, getT, menuEnv, menuFn, Err.isAny, Err.isA, Err.parent]
+
+/-- `CatchExceptionDataset` has no `__getitem__` for integers; nothing is called -/
+theorem C08_getitem_catch (ρ : Env) (E : List Err) (p : TPipe) (i : Nat) :
+    getT ρ (.catch E p) i = ([], .error .notImplemented) := by
+  rw [getT]
+
+/-! ### 9.4 `tile`: `r` passes over the input -/
+
+/-- the untraced view of `tile r` is the `r`-fold append of the untraced view of the input (`Stream.append` stops at
+    the first pass that ends with an error, so no hypothesis on the input is needed) -/
+theorem C08_tile_erase (ρ : Env) (r : Nat) (p : TPipe) :
+    (iterT ρ (.tile r p)).erase = (List.replicate r (iterT ρ p).erase).foldr Stream.append Stream.nil := by
+  rw [iterT]
+  exact erase_tile _ r
+
+/-- for an input that iterates without error: the values `r` times over, no error -/
+theorem C08_tile_erase_ok (ρ : Env) (r : Nat) (p : TPipe) (h : (iterT ρ p).err = none) :
+    (iterT ρ (.tile r p)).erase = ⟨(List.replicate r (iterT ρ p).erase.vals).flatten, none⟩ := by
+  rw [C08_tile_erase]
+  induction r with
+  | zero => rfl
+  | succ r ih =>
+    rw [List.replicate_succ, List.foldr_cons, ih, List.replicate_succ, List.flatten_cons]
+    simp [Stream.append, TStream.erase, h]
+
+/-- … and every pass re-executes the calls of the input: the input is iterated afresh each time -/
+theorem C08_tile_log (ρ : Env) (r : Nat) (p : TPipe) (h : (iterT ρ p).err = none) :
+    (iterT ρ (.tile r p)).fullLog = (List.replicate r (iterT ρ p).fullLog).flatten := by
+  rw [iterT]
+  exact fullLog_tile _ h r
+
+/-- a single pass is the input itself; a failing pass ends the whole iteration -/
+theorem C08_tile_one (ρ : Env) (p : TPipe) : iterT ρ (.tile 1 p) = iterT ρ p := by
+  rw [iterT]
+  exact tileT_one _
+
+theorem C08_tile_err (ρ : Env) (r : Nat) (p : TPipe) (e : Err) (h : (iterT ρ p).err = some e) :
+    iterT ρ (.tile (r + 1) p) = iterT ρ p := by
+  rw [iterT]
+  exact tileT_err _ e h r
+
+/-- `ds.tile(r)[i]` touches position `i % n` of the input only -/
+theorem C08_tile_getitem (ρ : Env) (r : Nat) (p : TPipe) (n i : Nat) (h : lenT p = some n) (hi : i < r * n) :
+    getT ρ (.tile r p) i = getT ρ p (i % n) := by
+  rw [getT, h]
+  simp [hi]
+
+theorem C08_tile_getitem_out (ρ : Env) (r : Nat) (p : TPipe) (n i : Nat) (h : lenT p = some n) (hi : r * n ≤ i) :
+    getT ρ (.tile r p) i = ([], .error .indexError) := by
+  rw [getT, h]
+  simp [Nat.not_lt.2 hi]
+
+example : iterT menuEnv (.tile 2 (.filter 3 (.keepMod 2 0) (.src [.int 1, .int 2, .int 3])))
+    = ⟨[([⟨3, .int 1⟩, ⟨3, .int 2⟩], .int 2), ([⟨3, .int 3⟩, ⟨3, .int 1⟩, ⟨3, .int 2⟩], .int 2)], [⟨3, .int 3⟩], none⟩ := rfl
+
+example : getT menuEnv (.tile 2 (.map 1 (.add 1) (.src [.int 1, .int 2, .int 3]))) 4
+    = ([⟨1, .int 2⟩], .ok (.int 3)) := by simp [getT, lenT, menuEnv, menuFn]
+
+/-! ### 9.5 `intersperse` -/
+
+theorem C08_intersperse_len (p q : TPipe) (n₁ n₂ : Nat) (hp : lenT p = some n₁) (hq : lenT q = some n₂) :
+    lenT (.intersperse p q) = some (n₁ + n₂) ∧ (intersperseOrder [n₁, n₂]).length = n₁ + n₂ := by
+  constructor
+  · simp [lenT, hp, hq]
+  · simp [order_length]
+
+/-- `ds[i]` of an interspersed dataset is `parts[d][j]` for the `i`-th entry `(d, j)` of the order table: it touches
+    that one position of that one part -/
+theorem C08_intersperse_getitem (ρ : Env) (p q : TPipe) (n₁ n₂ : Nat) (hp : lenT p = some n₁) (hq : lenT q = some n₂)
+    (i : Nat) :
+    getT ρ (.intersperse p q) i =
+      match (intersperseOrder [n₁, n₂])[i]? with
+      | some o => if o.d == 0 then getT ρ p o.j else getT ρ q o.j
+      | none => ([], .error .indexError) := by
+  rw [getT, hp, hq]
+  rfl
+
+/-- iterating: when the traced streams of the parts have exactly `n₁` resp. `n₂` chunks, the interspersed stream
+    consists of chunk `j` of part `d` for each entry `(d, j)` of the order table, in table order — `n₁ + n₂` chunks;
+    it ends normally and its tail is empty, so `fullLog` is the concatenation of those chunk logs: the calls after
+    the last `yield` of the parts (their tails) are never executed -/
+theorem C08_intersperse_values (ρ : Env) (p q : TPipe) (n₁ n₂ : Nat) (hp : lenT p = some n₁) (hq : lenT q = some n₂)
+    (ha : (iterT ρ p).chunks.length = n₁) (hb : (iterT ρ q).chunks.length = n₂) :
+    (iterT ρ (.intersperse p q)).chunks =
+      (intersperseOrder [n₁, n₂]).filterMap
+        (fun (o : OrdEntry) => if o.d == 0 then (iterT ρ p).chunks[o.j]? else (iterT ρ q).chunks[o.j]?) ∧
+    (iterT ρ (.intersperse p q)).chunks.length = n₁ + n₂ ∧
+    (∀ (i : Nat) (o : OrdEntry), (intersperseOrder [n₁, n₂])[i]? = some o →
+      (iterT ρ (.intersperse p q)).chunks[i]? =
+        if o.d == 0 then (iterT ρ p).chunks[o.j]? else (iterT ρ q).chunks[o.j]?) ∧
+    (iterT ρ (.intersperse p q)).tail = [] ∧
+    (iterT ρ (.intersperse p q)).err = none ∧
+    (iterT ρ (.intersperse p q)).fullLog = ((iterT ρ (.intersperse p q)).chunks.map (·.1)).flatten := by
+  have ht : iterT ρ (.intersperse p q) =
+      interT (intersperseOrder [n₁, n₂]) (iterT ρ p).chunks (iterT ρ p).tail (iterT ρ p).err
+        (iterT ρ q).chunks (iterT ρ q).tail (iterT ρ q).err := by
+    rw [iterT, hp, hq]
+  obtain ⟨h1, h2, h3⟩ := inter_order (iterT ρ p).chunks (iterT ρ q).chunks (iterT ρ p).tail (iterT ρ q).tail
+    (iterT ρ p).err (iterT ρ q).err
+  rw [ha, hb, ← ht] at h1 h2 h3
+  have hlen : (iterT ρ (.intersperse p q)).chunks.length = n₁ + n₂ := by
+    have := congrArg List.length h1
+    simpa [order_length] using this
+  refine ⟨?_, hlen, ?_, h2, h3, ?_⟩
+  · have := congrArg (List.filterMap id) h1
+    simpa [List.filterMap_map, Function.comp_def] using this
+  · intro i o hio
+    have := congrArg (fun l => l[i]?) h1
+    simp only [List.getElem?_map, hio, Option.map_some] at this
+    cases hc : (iterT ρ (.intersperse p q)).chunks[i]? with
+    | none => rw [hc] at this; simp at this
+    | some c => rw [hc] at this; simpa using this
+  · simp [TStream.fullLog, h2]
+
+/-- the order table of a 1-element and a 2-element part: fractions 1/2 (part 1), 1/1 (part 0), 2/2 (part 1) -/
+theorem intersperseOrder_1_2 : intersperseOrder [1, 2] = [⟨1, 2, 1, 0⟩, ⟨1, 1, 0, 0⟩, ⟨2, 2, 1, 1⟩] := by
+  simp [intersperseOrder, orderEntries, List.mergeSort, List.MergeSort.Internal.splitInTwo, List.zipIdx, List.range,
+    List.range.loop, OrdEntry.le]
+
+example : iterT menuEnv (.intersperse (.map 1 (.add 10) (.src [.int 1])) (.map 2 (.add 20) (.src [.int 1, .int 2])))
+    = ⟨[([⟨2, .int 1⟩], .int 21), ([⟨1, .int 1⟩], .int 11), ([⟨2, .int 2⟩], .int 22)], [], none⟩ := by
+  simp [iterT, lenT, intersperseOrder_1_2, interT, mapT, menuEnv, menuFn]
+
+/-- `ds[1]` is position 0 of the first part -/
+example : getT menuEnv (.intersperse (.map 1 (.add 10) (.src [.int 1])) (.map 2 (.add 20) (.src [.int 1, .int 2]))) 1
+    = ([⟨1, .int 1⟩], .ok (.int 11)) := by
+  simp [getT, lenT, intersperseOrder_1_2, menuEnv, menuFn]
+
+/-- a part that runs out early (its stream has fewer chunks than its `len`: the function raised) ends the
+    interspersed stream with that error; the calls made by then are in the tail -/
+example : iterT menuEnv (.intersperse (.map 1 (.add 10) (.src [.int 1]))
+      (.map 2 (.raiseIfMod 2 0 .userA) (.src [.int 1, .int 2])))
+    = ⟨[([⟨2, .int 1⟩], .int 1), ([⟨1, .int 1⟩], .int 11)], [⟨2, .int 2⟩], some .userA⟩ := by
+  simp [iterT, lenT, intersperseOrder_1_2, interT, mapT, menuEnv, menuFn]
+
+example : stages (.tile 2 (.cache (.catch [.userA] (.reshuffle [0] (.intersperse (.src [.int 1]) (.src [.int 2])))))) = [] := rfl
+
 end LazyDs
